@@ -116,6 +116,97 @@ def written_allocs(trace):
     return out
 
 
+def written_views(trace):
+    """the array views (Arr) some op of the trace writes, in program order"""
+    from .numba_fx import numba_effects
+    out = []
+    for op in trace:
+        if op.kind == "Launch":
+            for a in op.kernel.stencil.assigns:
+                if a.field in op.arrays:
+                    out.append(op.arrays[a.field])
+        elif op.kind == "SliceAssign":
+            out.append(op.dst)
+        elif op.kind == "ElemAssign":
+            out.append(op.arr)
+        elif op.kind == "FFT":
+            out.append(op.out)
+        elif op.kind == "NumpyOp" and op.out is not None and op.meta.get("out_kw"):
+            out.append(op.out)
+        elif op.kind == "NumbaCall":
+            eff = numba_effects(op.fn)
+            for p in eff["writes"]:
+                v = op.args.get(p)
+                if isinstance(v, Arr):
+                    out.append(v)
+    return out
+
+
+def component_written(views, alloc_id, comp):
+    """does any written view of allocation alloc_id touch component index tuple comp (leading axes)?"""
+    from .poly import const as _c
+    for v in views:
+        if v.alloc.id != alloc_id:
+            continue
+        hit = True
+        for k, c in enumerate(comp):
+            ax = v.axes[k]
+            if ax[0] == "i":
+                if not (ax[1] == _c(c)):
+                    hit = False
+                    break
+            else:
+                # a range over the component axis: covers c when lo <= c < hi (constants)
+                try:
+                    lo, hi = int(simplify(ax[1])), int(simplify(ax[2]))
+                except Exception:  # noqa: BLE001
+                    continue
+                if not (lo <= c < hi):
+                    hit = False
+                    break
+        if hit:
+            return True
+    return False
+
+
+def skipped_components(trace):
+    """call frames that are handed a whole vector field (component axis in full) and write some of its components through
+    kernel launches / stores but not all of them.  Returns [(function qualname, parameter, written, missing)]"""
+    from .store import comp_rank
+    out = []
+    stack = []          # (CallBegin op, index in trace)
+    for i, op in enumerate(trace):
+        if op.kind == "CallBegin":
+            stack.append((op, i))
+        elif op.kind == "CallEnd" and stack:
+            beg, i0 = stack.pop()
+            vecs = {}
+            for pname, v in (beg.args or {}).items():
+                if isinstance(v, Arr) and v.alloc.shape is not None and comp_rank(v.alloc) == 1 and v.axes and v.axes[0][0] == "r":
+                    try:
+                        lo, hi = int(simplify(v.axes[0][1])), int(simplify(v.axes[0][2]))
+                    except Exception:  # noqa: BLE001
+                        continue
+                    if hi - lo >= 2:
+                        vecs[pname] = (v, lo, hi)
+            if not vecs:
+                continue
+            views = written_views(trace[i0:i + 1])
+            for pname, (v, lo, hi) in vecs.items():
+                if not any(w.alloc.id == v.alloc.id for w in views):
+                    continue
+                wr = [c for c in range(lo, hi) if component_written(views, v.alloc.id, (c,))]
+                miss = [c for c in range(lo, hi) if c not in wr]
+                if wr and miss:
+                    out.append((beg.fn.qualname, pname, wr, miss))
+    return out
+
+
+def simplify(v):
+    from .values import simplify_scalar
+    return simplify_scalar(v)
+
+
 def read_allocs(trace):
     out = set()
     for op in trace:
